@@ -40,6 +40,7 @@ CHECKS = {
                         "integer-valued delays in the lockstep histories; dyadic rationals in the kernel differential"],
     },
     "C06": {
+        "extra_props": ["Props/C06_machine.v"],
         "modules": ["p_c06r", "p_c06m"],
         "rule": "retry: seeded scenarios as C05 plus 0-2 cancel() calls per future at random virtual delays / after k delegate "
                 "submissions, from separate threads; every history replayed on Model/Retry.v; distinct = distinct event traces; "
@@ -126,7 +127,7 @@ CHECKS = {
         "assumptions": ["PARTIAL: cross-layer propagation/joining is decided by the monitor on explored schedules; the gate protocol is proved for any number of threads"],
     },
     "C04": {
-        "extra_props": ["Props/C04_retry.v"],
+        "extra_props": ["Props/C04_retry.v", "Props/C04_poll.v"],
         "modules": ["p_c04"],
         "rule": "seeded scenarios on real stacks: depth 1-4 over the seven layer kinds, base sync or the real ThreadPoolExecutor, client programs "
                 "of 1-3 threads x 1-4 operations {submit, submit whose callable submits again, cancel, add_done_callback, add_done_callback "
@@ -230,7 +231,7 @@ CHECKS = {
     },
     "C18": {
         "modules": ["p_c18", "p_c18m", "p_c18p", "p_c18r"],
-        "extra_props": ["Props/Comb_F.v"],
+        "extra_props": ["Props/Comb_F.v", "Props/C06_machine.v"],
         "gen_lemmas": [],
         "rule": "p_c18m / p_c18p / p_c18r: the lockstep scenario families of C02+C13 (raising fn / error_fn / done-callbacks, several callbacks "
                 "per future), C08 (raising poll and cancel functions, concurrent cancels) and C05 (raising policy methods and callables) replayed "
